@@ -137,6 +137,8 @@ def _case_worker_inner(case):
                     "depth": sd.depth(), "len": len(sd)}
             if case.get("attr"):
                 meta["attr"] = attr_snapshot(sd, nm)
+            if case.get("pipe"):
+                meta["pipe"] = [json.loads(json.dumps(x)) for x in H._PIPE]
             real.append((H.sort_ids(r), dump_real(sd), meta))
         out = m.run()
         # reference (always with an unlimited configuration)
@@ -170,6 +172,13 @@ def _case_worker_inner(case):
                         if cmd not in seen_cmd:
                             seen_cmd[cmd] = m2.add(cmd)
                         chk_index.append((idx, item["id"], kind, seen_cmd[cmd]))
+        pipe_index = []
+        if case.get("pipe"):
+            from props_attr import pipe_checks
+            for idx, (_, _, meta) in enumerate(real):
+                for rec in (meta or {}).get("pipe", []):
+                    for kind, cmd, want in pipe_checks(rec, nm):
+                        pipe_index.append((idx, rec["node"], kind, m2.add(cmd), want))
         gidx = None
         if case.get("global_seeds") and real[-1][2] is not None:
             allseeds = [x for item in real[-1][2].get("attr", []) if item["exp"] for x in item.get("seeds", [])]
@@ -177,6 +186,7 @@ def _case_worker_inner(case):
                 gidx = m2.add(f"chk seeds {'*' * n} - {','.join(allseeds) or '-'}")
         ref_out = m2.run()
         global_verdict = None if gidx is None else ref_out[gidx]
+        pipe_results = [(idx, node, kind, ref_out[ci], want) for idx, node, kind, ci, want in pipe_index]
         verdicts = [(idx, nid, kind, ("notfullstate" if ci is None else ref_out[ci])) for idx, nid, kind, ci in chk_index]
         steps = []
         for idx, ((r, d, meta), line) in enumerate(zip(real, out)):
@@ -189,7 +199,7 @@ def _case_worker_inner(case):
                 mr = H.sort_ids(mr[len("result="):])
             steps.append({"real_result": r, "model_result": mr, "real": d, "model": md, "meta": meta})
         return {"case": case, "steps": steps, "ref_full": ref_out[1].split(" ", 1)[1], "mintraps": parse_spaces(ref_out[2]),
-                "root": ref_out[3], "attractors": parse_attractors(ref_out[4]), "verdicts": verdicts, "global_verdict": global_verdict, "n": n, "error": None}
+                "root": ref_out[3], "attractors": parse_attractors(ref_out[4]), "verdicts": verdicts, "global_verdict": global_verdict, "pipe_results": pipe_results if case.get("pipe") else [], "n": n, "error": None}
     except CaseTimeout:
         raise
     except Exception as e:  # harness error: reported, never silently dropped
